@@ -185,13 +185,13 @@ pub fn entry_points(data: &[u8]) -> Map<String, Value> {
 
 pub fn run_total(args: &Args) {
     if args.mode != "record" { eprintln!("totalc: only record"); std::process::exit(2); }
-    watchdog(1500);
     let l = Layouts::load();
     let mut rng = Rng::new(args.seed);
     let mut tr = TraceOut::create(args.out.as_deref().unwrap_or(""));
     let mut res = Results::create(args.res.as_deref().unwrap_or(""));
     let mut emit = |class: &str, data: &[u8], tr: &mut TraceOut, res: &mut Results| {
         res.case(fnv(data), !data.is_empty());
+        progress(|| format!("container entry points on class {} ({} bytes): {:?}", class, data.len(), &data[..data.len().min(96)]));
         let t0 = std::time::Instant::now();
         let o = entry_points(data);
         let ms = t0.elapsed().as_millis() as u64;
